@@ -204,8 +204,11 @@ def run_one(engine, prop, verif_seed, run_index, tier, cfg_override=None, keep_l
     except Violation as v:
         violation = v
         log.add({"violation": v.kind}, v.message[:200])
+    schedule = h64(*[(op.get("op"), op.get("task"), op.get("src"), op.get("a"), op.get("b"),
+                      tuple(op.get("srcs", ())), bool(op.get("interrupt_at")),
+                      (op.get("plan") or {}).get("fail_at")) for op in ops])
     res = {
-        "run_index": run_index, "run_seed": run_seed, "digest": log.digest(),
+        "run_index": run_index, "run_seed": run_seed, "digest": log.digest(), "schedule": schedule,
         "steps": len(ops), "counters": dict(world.counters),
         "distinct": world.distinct, "states": world.states, "cfg": cfg,
         "violation": None, "ops": ops if (keep_log or run_index < 3) else None,
@@ -388,7 +391,7 @@ def run_batch(engine_name, prop, verif_seed, n_runs, tier, wall_cap_s, workers=N
     agg = {
         "runs": 0, "steps": 0, "counters": collections.Counter(), "distinct": set(),
         "states": set(), "digests": {}, "violations": [], "harness": [],
-        "samples": [], "submitted": 0, "wall_capped": False, "slowest": [],
+        "samples": [], "submitted": 0, "wall_capped": False, "slowest": [], "schedules": set(),
     }
     ctx = multiprocessing.get_context("fork")
     indices = list(range(first_index, first_index + n_runs))
@@ -428,6 +431,7 @@ def run_batch(engine_name, prop, verif_seed, n_runs, tier, wall_cap_s, workers=N
                         agg["distinct"] |= res["distinct"]
                         agg["states"] |= res["states"]
                         agg["digests"][res["run_index"]] = res["digest"]
+                        agg["schedules"].add(res.get("schedule"))
                         agg["slowest"] = sorted(agg["slowest"] + [(round(res.get("wall", 0), 2),
                                                                    res["run_index"])])[-5:]
                         if res["violation"] is not None:
